@@ -1,0 +1,80 @@
+//go:build verif
+
+package builder
+
+// Contracts for the deductive checks in /verif (comment-only; see /verif/DESIGN.md).
+
+/*@
+import i "github.com/cockroachdb/redact/interfaces"
+import ib "github.com/cockroachdb/redact/internal/buffer"
+import m "github.com/cockroachdb/redact/internal/markers"
+
+-- Every SafeWriter method of the builder is "set the mode the statement of C09 names, then one
+-- Buffer write". The Buffer invariant (abstract here) is carried implicitly.
+
+func (b *StringBuilder) Write(s []byte) (n int, err error)
+  assert [C09,C02] b.mode == UnsafeEscaped before "return b.Buffer.Write(s)"
+  ensures n == len(s)
+
+func (b *StringBuilder) WriteString(s string) (n int, err error)
+  assert [C09,C02] b.mode == UnsafeEscaped before "return b.Buffer.WriteString(s)"
+  ensures n == len(s)
+
+func (b *StringBuilder) WriteByte(c byte) (err error)
+  assert [C09,C02] b.mode == UnsafeEscaped before "return b.Buffer.WriteByte(c)"
+
+func (b *StringBuilder) WriteRune(r rune) (err error)
+  assert [C09,C02] b.mode == UnsafeEscaped before "return b.Buffer.WriteRune(r)"
+
+func (b *StringBuilder) Print(args ...interface{})
+  requires [C08] b.mode == SafeRaw ==> clean(b.buf, len(b.buf))
+  may-panic
+  modifies b, alloc, memU
+  assert [C08,C09,C16] b.mode == SafeRaw before "_, _ = ifmt.Fprint(&b.Buffer, args...)"
+
+func (b *StringBuilder) Printf(format string, args ...interface{})
+  public format
+  requires [C08] b.mode == SafeRaw ==> clean(b.buf, len(b.buf))
+  may-panic
+  modifies b, alloc, memU
+  assert [C08,C09,C16] b.mode == SafeRaw before "_, _ = ifmt.Fprintf(&b.Buffer, format, args...)"
+
+func (b *StringBuilder) SafeString(s i.SafeString)
+  assert [C09,C05] b.mode == SafeEscaped before "_, _ = b.Buffer.WriteString(string(s))"
+
+func (b *StringBuilder) SafeInt(s i.SafeInt)
+  may-panic
+  modifies b, alloc, memU
+  assert [C09,C05] b.mode == SafeEscaped before "_, _ = ifmt.Fprintf(&b.Buffer, \"%d\", s)"
+
+func (b *StringBuilder) SafeUint(s i.SafeUint)
+  may-panic
+  modifies b, alloc, memU
+  assert [C09,C05] b.mode == SafeEscaped before "_, _ = ifmt.Fprintf(&b.Buffer, \"%d\", s)"
+
+func (b *StringBuilder) SafeFloat(s i.SafeFloat)
+  may-panic
+  modifies b, alloc, memU
+  assert [C09,C05] b.mode == SafeEscaped before "_, _ = ifmt.Fprintf(&b.Buffer, \"%v\", s)"
+
+func (b *StringBuilder) SafeRune(s i.SafeRune)
+  assert [C09,C05] b.mode == SafeEscaped before "_ = b.Buffer.WriteRune(rune(s))"
+
+func (b *StringBuilder) SafeByte(s i.SafeByte)
+  assert [C09,C05] b.mode == SafeEscaped before "_ = b.Buffer.WriteByte(byte(s))"
+
+func (b *StringBuilder) SafeBytes(s i.SafeBytes)
+  assert [C09,C05] b.mode == SafeEscaped before "_, _ = b.Buffer.Write([]byte(s))"
+
+func (b *StringBuilder) UnsafeString(s string)
+  assert [C09,C02] b.mode == UnsafeEscaped before "_, _ = b.Buffer.WriteString(s)"
+
+func (b *StringBuilder) UnsafeRune(s rune)
+  assert [C09,C02] b.mode == UnsafeEscaped before "_ = b.Buffer.WriteRune(s)"
+
+func (b *StringBuilder) UnsafeByte(s byte)
+  assert [C09,C02] b.mode == UnsafeEscaped before "_ = b.Buffer.WriteByte(s)"
+
+func (b *StringBuilder) UnsafeBytes(s []byte)
+  assert [C09,C02] b.mode == UnsafeEscaped before "_, _ = b.Buffer.Write(s)"
+@*/
